@@ -3207,6 +3207,10 @@ def _st_pack(ip, recv, args, kwargs, node, fr):
     lo, hi = struct_range(w, signed)
     ip.raise_if(z3.Or(n < lo, n >= hi), 'struct.error', node)
     enc, dec = struct_funcs(order, signed)
+    if w == 1 and not signed:
+        bv = z3.Int2BV(n, 8)
+        ip.assume(z3.BV2Int(bv) == n)          # 0 <= n < 256 on this path
+        return VBytes(z3.Unit(bv))
     r = enc(n, w)
     ip.assume(z3.Length(r) == w)
     ip.assume(dec(r) == n)
